@@ -71,16 +71,33 @@ type adapter[K any] struct {
 	render func(K) string
 	spec   string
 	tlit   func(string) string
+	// the literal of the last key this tree was called with: looked up again between the passes over a sequence and
+	// after Minimum/Maximum, while the keys handed out so far are still held (read-only calls must not matter)
+	last    string
+	hasLast bool
 }
 
-func (a *adapter[K]) Insert(lit string, v int)   { a.t.Insert(a.parse(lit), v) }
-func (a *adapter[K]) Delete(lit string) bool     { return a.t.Delete(a.parse(lit)) }
-func (a *adapter[K]) Get(lit string) (int, bool) { return a.t.Search(a.parse(lit)) }
+func (a *adapter[K]) note(lit string) { a.last, a.hasLast = lit, true }
+
+// poke performs read-only calls whose results are discarded; a panic in them is not this call's business
+func (a *adapter[K]) poke() {
+	defer func() { _ = recover() }()
+	if a.hasLast {
+		a.t.Search(a.parse(a.last))
+	}
+	a.t.Minimum()
+	a.t.Maximum()
+}
+
+func (a *adapter[K]) Insert(lit string, v int)   { a.note(lit); a.t.Insert(a.parse(lit), v) }
+func (a *adapter[K]) Delete(lit string) bool     { a.note(lit); return a.t.Delete(a.parse(lit)) }
+func (a *adapter[K]) Get(lit string) (int, bool) { return a.t.Search(a.parse(lit)) } // no note: readers may run concurrently
 func (a *adapter[K]) Min() (string, int, bool) {
 	k, v, ok := a.t.Minimum()
 	if !ok {
 		return "", 0, false
 	}
+	a.poke() // the key handed out is the caller's: later calls must not alter it
 	return a.render(k), v, true
 }
 func (a *adapter[K]) Max() (string, int, bool) {
@@ -88,6 +105,7 @@ func (a *adapter[K]) Max() (string, int, bool) {
 	if !ok {
 		return "", 0, false
 	}
+	a.poke()
 	return a.render(k), v, true
 }
 func (a *adapter[K]) Size() int        { return a.t.Size() }
@@ -102,14 +120,19 @@ func (a *adapter[K]) TranscriptLit(lit string) string {
 }
 
 func (a *adapter[K]) SeqHook(sel []string, hook func(i int)) []kv {
-	var got []kv
+	var keys []K
+	var vals []int
 	i := 0
 	a.mkSeq(sel)(func(k K, v int) bool {
 		hook(i)
 		i++
-		got = append(got, kv{a.render(k), v})
+		keys, vals = append(keys, k), append(vals, v)
 		return true
 	})
+	got := make([]kv, len(keys))
+	for j := range keys {
+		got[j] = kv{a.render(keys[j]), vals[j]}
+	}
 	return got
 }
 
@@ -144,10 +167,19 @@ func (a *adapter[K]) mkSeq(sel []string) func(func(K, int) bool) {
 }
 
 func (a *adapter[K]) runSeq(seq func(func(K, int) bool), stop, passes int) ([][]kv, int) {
-	var out [][]kv
+	// the keys handed out are kept as they are (the way a caller collects them into a slice) and read only after
+	// every pass is over, with read-only calls on the same tree between the passes
+	type raw struct {
+		k K
+		v int
+	}
+	var held [][]raw
 	late := 0
 	for p := 0; p < passes; p++ {
-		var got []kv
+		if p > 0 {
+			a.poke()
+		}
+		var got []raw
 		stopped := false
 		// with several passes over the same sequence value, abandoned passes (even) alternate with complete ones (odd)
 		stop := stop
@@ -159,14 +191,24 @@ func (a *adapter[K]) runSeq(seq func(func(K, int) bool), stop, passes int) ([][]
 				late++
 				return false
 			}
-			got = append(got, kv{a.render(k), v})
+			got = append(got, raw{k, v})
 			if stop != 0 && len(got) == stop {
 				stopped = true
 				return false
 			}
 			return true
 		})
-		out = append(out, got)
+		held = append(held, got)
+	}
+	if passes > 0 {
+		a.poke()
+	}
+	out := make([][]kv, len(held))
+	for i, got := range held {
+		out[i] = make([]kv, len(got))
+		for j, e := range got {
+			out[i][j] = kv{a.render(e.k), e.v}
+		}
 	}
 	return out, late
 }
